@@ -258,11 +258,7 @@ func TestC08(t *testing.T) {
 
 	w := &world{dir: t.TempDir(), ports: map[string]int{"base": hx.FreePort(), "n1": hx.FreePort(), "n2": hx.FreePort()}}
 	var err error
-	w.busy, err = net.Listen("tcp", "127.0.0.1:0")
-	if err != nil {
-		res.Infra = err.Error()
-		return
-	}
+	w.busy = hx.ListenFresh()
 	defer w.busy.Close()
 	w.ports["busy"] = w.busy.Addr().(*net.TCPAddr).Port
 	w.htbad = filepath.Join(w.dir, "htpasswd-bad")
